@@ -169,3 +169,35 @@ func verif_contract_dhcp4_spoofer_Handler_allocIPOffer(h *Handler, lease *Lease,
 	vEnsures(spec_subnet_wf(lease.subnet))
 	return err
 }
+
+// ---------- the DHCP send path (C07) ----------
+
+// sendDHCP4Packet: exactly one frame when it succeeds: Ethernet from srcAddr.MAC (the handler
+// passes the host NIC MAC) to dstAddr.MAC, an IPv4 header with protocol 17, total length
+// 28+len(p), the given addresses, a UDP header with the given ports and length 8+len(p), and the
+// DHCP message unchanged behind it.
+//
+//verif:props C07
+//verif:timeout 120s
+func verif_contract_dhcp4_spoofer_sendDHCP4Packet(conn net.PacketConn, srcAddr packet.Addr, dstAddr packet.Addr, p packet.DHCP4) error {
+	vRequires(conn != nil && len(srcAddr.MAC) == 6 && len(dstAddr.MAC) == 6 && srcAddr.IP.Is4() && dstAddr.IP.Is4())
+	vRequires(p != nil && 240 <= len(p) && len(p) <= 1400)
+	vCanary()
+	n0 := vWireCount()
+	vModifiesWire()
+	err := sendDHCP4Packet(conn, srcAddr, dstAddr, p)
+	if err == nil {
+		vEnsures(vWireCount() == n0+1)
+		w := vWireLast()
+		vEnsures(len(w) == 42+len(p) && w[12] == 0x08 && w[13] == 0x00 && w[14] == 0x45 && w[23] == 17)
+		vEnsures(int(w[16])<<8|int(w[17]) == 28+len(p) && int(w[38])<<8|int(w[39]) == 8+len(p))
+		vEnsures(w[6] == srcAddr.MAC[0] && w[7] == srcAddr.MAC[1] && w[8] == srcAddr.MAC[2] && w[9] == srcAddr.MAC[3] && w[10] == srcAddr.MAC[4] && w[11] == srcAddr.MAC[5])
+		vEnsures(w[0] == dstAddr.MAC[0] && w[1] == dstAddr.MAC[1] && w[2] == dstAddr.MAC[2] && w[3] == dstAddr.MAC[3] && w[4] == dstAddr.MAC[4] && w[5] == dstAddr.MAC[5])
+		vEnsures(srcAddr.IP.As4() == [4]byte{w[26], w[27], w[28], w[29]} && dstAddr.IP.As4() == [4]byte{w[30], w[31], w[32], w[33]})
+		vEnsures(int(w[34])<<8|int(w[35]) == int(srcAddr.Port) && int(w[36])<<8|int(w[37]) == int(dstAddr.Port))
+		vEnsures(vForall(0, len(p), func(i int) bool { return w[42+i] == p[i] }))
+	} else {
+		vEnsures(vWireCount() == n0 || vWireCount() == n0+1)
+	}
+	return err
+}
